@@ -129,6 +129,8 @@ def c18(prop, tier, verdict):
     # a refill of more than one token per tick: capacity 10, interval 500 ms (5 per tick): partial drain, one tick, burst
     rates += [{'rate': {'cap': 10, 'interval_ms': 500, 'bursts': b, 'waits_ms': w}, 'steps': []}
               for b, w in (([1, 24], [560]), ([3, 20, 20], [540, 20]))]
+    # concurrent takes: the burst is spread over 8 sessions (8 reader goroutines take tokens at the same moment), small bucket, slow refill
+    rates += [{'rate': {'cap': 2, 'interval_ms': 1000, 'bursts': [24], 'waits_ms': [], 'sessions': 8}, 'steps': []} for _ in range(60 if tier == 'thorough' else 30)]
     cov, _ = eng_generic.run(prop, tier, verdict, 'Overload', 'overload', 'POverload', cl, consts={'MaxOps': '8' if tier == 'thorough' else '7', 'GuardRelease': 'TRUE', 'Limits': '{0, 1, 2}'},
                              mc_cfg='Overload_mc.cfg', extra_cfg='VIEW view', min_count=3000, nontrivial=lambda s: len(s.get('steps', [])) > 2, extra_scenarios=rates)
     cov['atomic_model'] = 'spec/OverloadAtomic.tla: 3 concurrent take/release threads at atomic-operation granularity, limit 2: %d distinct states, NeverOver holds' % ra['distinct']
